@@ -11,7 +11,7 @@ import gen  # noqa: E402
 import units  # noqa: E402
 
 VERIF = gen.VERIF
-GEN_DIR = os.path.join(VERIF, "build", "gen")
+GEN_DIR = os.environ.get("VERIF_GEN_DIR") or os.path.join(VERIF, "build", "gen")
 DEPS = os.path.join(VERIF, "build", "verus-deps", "debug", "deps")
 
 
